@@ -180,6 +180,15 @@ func (c *c17rConn) Do(cmd string, args ...interface{}) (interface{}, error) {
 		return int64(1), nil
 	case "hdel":
 		return c.store.hdel(c.db, strs[0], strs[1:]...), nil
+	case "eval":
+		// (driver adaptation) the collector's conditional delete : EVAL script 1 key offsetField
+		// seenOffset f3 f4 f5 - HDEL only while HGET key offsetField still equals seenOffset
+		if len(strs) == 8 {
+			if h := c.store.dbs[c.db][strs[2]]; h != nil && h.vals[strs[3]] == strs[4] {
+				return c.store.hdel(c.db, strs[2], strs[3], strs[5], strs[6], strs[7]), nil
+			}
+			return int64(0), nil
+		}
 	}
 	return nil, fmt.Errorf("c17rConn: unsupported command %q", cmd)
 }
@@ -199,14 +208,14 @@ func (c *c17rConn) SendAndFlush(cmd string, args ...interface{}) error {
 	c.db = db
 	return nil
 }
-func (c *c17rConn) Receive() (interface{}, error)  { return nil, nil }
-func (c *c17rConn) ReceiveString() (string, error) { return "OK", nil }
-func (c *c17rConn) ReceiveBool() (bool, error)     { return true, nil }
-func (c *c17rConn) BufioReader() *bufio.Reader     { return nil }
-func (c *c17rConn) BufioWriter() *bufio.Writer     { return nil }
-func (c *c17rConn) Flush() error                   { return nil }
-func (c *c17rConn) RedisType() config.RedisType    { return config.RedisTypeStandalone }
-func (c *c17rConn) Addresses() []string            { return []string{"c17"} }
+func (c *c17rConn) Receive() (interface{}, error)          { return nil, nil }
+func (c *c17rConn) ReceiveString() (string, error)         { return "OK", nil }
+func (c *c17rConn) ReceiveBool() (bool, error)             { return true, nil }
+func (c *c17rConn) BufioReader() *bufio.Reader             { return nil }
+func (c *c17rConn) BufioWriter() *bufio.Writer             { return nil }
+func (c *c17rConn) Flush() error                           { return nil }
+func (c *c17rConn) RedisType() config.RedisType            { return config.RedisTypeStandalone }
+func (c *c17rConn) Addresses() []string                    { return []string{"c17"} }
 func (c *c17rConn) NewBatcher(bool) rediscommon.CmdBatcher { return &c17rBatcher{conn: c} }
 func (c *c17rConn) NewTxnBatcher() rediscommon.CmdBatcher  { return &c17rBatcher{conn: c} }
 func (c *c17rConn) IterateNodes(func(string, interface{}, error), string, ...interface{}) {
